@@ -87,3 +87,11 @@ package meta
 //@   loop 2 decreases len(r.Entries) - rangeindex
 //@   ensures (result == nil) == inRangeV(r, v)
 //@   ensures (result == nil) == okRangeV(r, v)
+
+// ---- C05: patterns ------------------------------------------------------------------------------------
+//@ func (p *Pattern) CheckValue(s string) bool
+//@   mode int
+//@   property C05
+//@   requires p != nil && p.regex != nil
+//@   assigns nothing
+//@   ensures result == (rematch(p.regex, s) != p.inverted)
